@@ -18,7 +18,8 @@ MODULE = "Sqfs.Props.C04"
 REQUIRED = ["Sqfs.C04.readNumber_exact_or_error", "Sqfs.C04.number_roundtrip", "Sqfs.C04.number_roundtrip_signed",
             "Sqfs.C04.checksum_roundtrip", "Sqfs.C04.prefix_digit_len_correct", "Sqfs.C04.schily_record_length",
             "Sqfs.C04.sparse_expand_spec", "Sqfs.C04.specExpand_length", "Sqfs.C04.mtime_clamp", "Sqfs.C04.mtime_overwrite_path_safe",
-            "Sqfs.C04.prefix_strip", "Sqfs.C04.root_handling", "Sqfs.C04.implicit_parents"]
+            "Sqfs.C04.prefix_strip", "Sqfs.C04.root_handling", "Sqfs.C04.implicit_parents",
+            "Sqfs.C04.sparse_expand_spec_any_request_size", "Sqfs.C04.header_roundtrip_partial", "Sqfs.C04.fixpoint_entry_level_partial"]
 EXCLUDE = ("lib/tar/src/write_header.c", "lib/tar/src/read_header.c")     # #included by the harness (static helpers)
 U64 = 1 << 64
 
@@ -1067,6 +1068,43 @@ def observe_image(ctx, tools, img):
     return sorted(lines), None
 
 
+def run_conv_case(ctx, tools, d, i, case):
+    """the real tar2sqfs on one generated archive -> ("ok", sorted tree lines) | ("fail", msg) | ("crash"|"timeout"|"observe-error", msg)"""
+    arc, rb, sflag, kflag, dm, du, dg, dmode = case
+    env = ctx.san_env()
+    img = d / ("c%d.sqfs" % i)
+    cmd = [str(tools["tar2sqfs"]), "-q", "-f", "-j", "1", "--defaults", "mtime=%d,uid=%d,gid=%d,mode=0%o" % (dm, du, dg, dmode)]
+    if rb:
+        cmd += ["--root-becomes", rb.decode()]
+    if sflag:
+        cmd.append("-S")
+    if kflag:
+        cmd.append("-k")
+    try:
+        r = vlib.sh(cmd + [str(img)], input=arc, env=env, timeout=1200, text=False)
+    except Exception as e:
+        return ("timeout", str(e))
+    if r.returncode >= 90 or r.returncode < 0:
+        return ("crash", "exit %d: %s" % (r.returncode, r.stderr.decode("latin1")[-600:]))
+    if r.returncode != 0:
+        return ("fail", r.stderr.decode("latin1")[-200:])
+    obs, err = observe_image(ctx, tools, img)
+    try:
+        img.unlink()
+    except OSError:
+        pass
+    if obs is None:
+        return ("observe-error", err)
+    return ("ok", obs)
+
+
+def norm_conv_model(line):
+    if not line.startswith("ok"):
+        return "fail"
+    body = line[3:].strip()
+    return sorted(x for x in body.split(";") if x) if body else []
+
+
 def tool_conv(ctx, harness, stats):
     """process_tarball + fstree_add_generic model vs the real tar2sqfs (built from the working tree) on small colliding archives"""
     rng = ctx.rng
@@ -1085,46 +1123,16 @@ def tool_conv(ctx, harness, stats):
     lines = ["t2s %s %d %d %d %d %d %o %s" % (tok(rb), sflag, kflag, dm, du, dg, dmode, tok(arc)) for arc, rb, sflag, kflag, dm, du, dg, dmode in cases]
     model = run_model(ctx, lines)
     cur = run_model(ctx, ["t2scur" + l[3:] for l in lines])
-    env = ctx.san_env()
     hist = {"model_ok": 0, "model_fail": 0, "root_becomes": 0, "no_keep_time": 0, "d25_seen": 0}
 
     def one(i):
-        arc, rb, sflag, kflag, dm, du, dg, dmode = cases[i]
-        img = d / ("c%d.sqfs" % i)
-        cmd = [str(tools["tar2sqfs"]), "-q", "-f", "-j", "1", "--defaults", "mtime=%d,uid=%d,gid=%d,mode=0%o" % (dm, du, dg, dmode)]
-        if rb:
-            cmd += ["--root-becomes", rb.decode()]
-        if sflag:
-            cmd.append("-S")
-        if kflag:
-            cmd.append("-k")
-        try:
-            r = vlib.sh(cmd + [str(img)], input=arc, env=env, timeout=1200, text=False)
-        except Exception as e:
-            return ("timeout", str(e))
-        if r.returncode >= 90 or r.returncode < 0:
-            return ("crash", "exit %d: %s" % (r.returncode, r.stderr.decode("latin1")[-600:]))
-        if r.returncode != 0:
-            return ("fail", r.stderr.decode("latin1")[-200:])
-        obs, err = observe_image(ctx, tools, img)
-        try:
-            img.unlink()
-        except OSError:
-            pass
-        if obs is None:
-            return ("observe-error", err)
-        return ("ok", obs)
+        return run_conv_case(ctx, tools, d, i, cases[i])
 
     from concurrent.futures import ThreadPoolExecutor
     with ThreadPoolExecutor(max_workers=3) as ex:
         results = list(ex.map(one, range(len(cases))))
 
-    def norm_model(line):
-        if not line.startswith("ok"):
-            return "fail"
-        body = line[3:].strip()
-        return sorted(x for x in body.split(";") if x) if body else []
-
+    norm_model = norm_conv_model
     for i, (st, obs) in enumerate(results):
         arc, rb, sflag, kflag = cases[i][:4]
         replay = {"unit": [lines[i]], "tar2sqfs": {"archive_hex": tok(arc), "root_becomes": rb.decode(), "S": sflag, "k": kflag, "defaults": list(cases[i][4:])}}
@@ -1218,6 +1226,19 @@ ASSUMPTIONS = [
 def replay(ctx, path):
     body = json.loads(open(path).read())
     rp = body.get("replay", {})
+    if "tar2sqfs" in rp:
+        ctx.lean_build(["sqfsmodel"])
+        tools = {t: ctx.build_tool(t) for t in ("tar2sqfs", "rdsquashfs", "sqfs2tar")}
+        c = rp["tar2sqfs"]
+        case = (untok(c["archive_hex"]), c["root_becomes"].encode(), c["S"], c["k"]) + tuple(c["defaults"])
+        st, obs = run_conv_case(ctx, tools, ctx.scratch, 0, case)
+        model = run_model(ctx, rp["unit"])
+        cur = run_model(ctx, ["t2scur" + rp["unit"][0][3:]])
+        got = "fail" if st == "fail" else obs
+        print("tar2sqfs:", st, got if st != "ok" else "\n  " + "\n  ".join(got))
+        print("model   :", norm_conv_model(model[0]))
+        print("model of the unrepaired code:", norm_conv_model(cur[0]))
+        return 0 if got == norm_conv_model(model[0]) else 1
     if "unit" in rp:
         ctx.lean_build(["sqfsmodel"])
         harness = build_harness(ctx)
